@@ -14,20 +14,6 @@ Open Scope N_scope.
 
 (** ** Entries of a directory *)
 
-Definition entry_data (e : stree) : option bytes := match e with SFile _ d => Some d | _ => None end.
-Definition is_sdir (e : stree) : bool := match e with SDir _ _ _ => true | _ => false end.
-
-(** The recipes [enumerate_recipe_directory] collects, in listing order. *)
-Fixpoint dir_recipes (es : list stree) : list (str * option bytes) :=
-  match es with
-  | [] => []
-  | e :: r =>
-      if is_sdir e then dir_recipes r
-      else if is_readme_name (sname e) then dir_recipes r
-      else if is_md_name (sname e) then (sname e, entry_data e) :: dir_recipes r
-      else dir_recipes r
-  end.
-
 Lemma scan_entries_recipes : forall es rd acc rd' rs,
   scan_entries es rd acc = Ok (rd', rs) -> rs = rev acc ++ dir_recipes es.
 Proof.
